@@ -18,8 +18,9 @@ TECHNIQUE = (
     "evaluator in every state"
 )
 LEVEL_TEXT = (
-    "From ~25 (quick) / ~90 (thorough) start states (12 networks x tree "
-    "shapes x 3 construction modes) ALL histories over a ~55-operation "
+    "From 35 (quick) / 134 (thorough) start states (13 networks x tree "
+    "shapes x 3 construction modes + non-initial states: sorted+contracted, "
+    "sliced+contracted, annealed) ALL histories over a ~55-operation "
     "alphabet (slice/project/unslice, reconfigure, forest, anneal, temper, "
     "slice-and-reconfigure, sort/reset indices, copy, contract and cost "
     "queries; in-place and copying variants) are explored to depth 2 "
